@@ -276,12 +276,12 @@ func parkedEqual(a, b []*parkedG) bool {
 		}
 		for k, v := range x.fr.regs {
 			w, ok := y.fr.regs[k]
-			if !ok || !identicalVal(v, w) {
+			if !ok || !valEqual(v, w) {
 				return false
 			}
 		}
 		for j := range x.fr.defers {
-			if !identicalVal(x.fr.defers[j].fn, y.fr.defers[j].fn) {
+			if !valEqual(x.fr.defers[j].fn, y.fr.defers[j].fn) {
 				return false
 			}
 		}
